@@ -4,6 +4,8 @@
 # usage: tools/mutants.sh [--all-props] [--runs N] [patch files...]    (default corpus: mutants/*.patch)
 #        result table: mutants/RESULTS.tsv   (mutant, expected, caught-by, missed-by)
 cd "$(dirname "$0")/.."
+# evidence written while /repo is deliberately broken goes to a scratch directory
+export VERIF_EVIDENCE_DIR=${VERIF_EVIDENCE_DIR:-/tmp/verif-mutants-evidence}
 ALLPROPS="C01 C02 C03 C04 C05 C06 C07 C08 C09 C11 C12 C13 C15 C16 C17 C18 C19 C20"
 all=0; runs=""
 while [[ "${1:-}" == --* ]]; do
